@@ -50,8 +50,10 @@ Inductive emit :=
 | EStop (a : uid)                          (* Stop<Action>(action_uid=a) appended to outgoing_events *)
 | EFailed (f : uid)                        (* FlowFailed of instance f pushed (right) on the internal queue *)
 | EFinished (f : uid)                      (* FlowFinished of instance f pushed (right) *)
-| ERestart (f src : uid) (activated : Z).  (* StartFlow (restart of activated instance f) pushed LEFT,
+| ERestart (f src : uid) (activated : Z)   (* StartFlow (restart of activated instance f) pushed LEFT,
                                               source_flow_instance_uid = src, "activated" marker *)
+| EStarted (f : uid).                      (* FlowStarted of the reference instance f pushed (right) when an
+                                              already activated flow is activated once more *)
 
 Record st := mkSt {
   flows : list (uid * inst);
@@ -98,6 +100,8 @@ Definition set_scopes (v : list (N * (list uid * list uid))) (i : inst) : inst :
   mkInst (i_flow i) (i_status i) (i_parent i) (i_children i) (i_actions i) v (i_activated i) (i_nis i).
 Definition set_actions (v : list uid) (i : inst) : inst :=
   mkInst (i_flow i) (i_status i) (i_parent i) (i_children i) v (i_scopes i) (i_activated i) (i_nis i).
+Definition set_parent (v : option uid) (i : inst) : inst :=
+  mkInst (i_flow i) (i_status i) v (i_children i) (i_actions i) (i_scopes i) (i_activated i) (i_nis i).
 Definition set_activated (v : Z) (i : inst) : inst :=
   mkInst (i_flow i) (i_status i) (i_parent i) (i_children i) (i_actions i) (i_scopes i) v (i_nis i).
 Definition set_nis (v : bool) (i : inst) : inst :=
@@ -382,6 +386,134 @@ Definition end_scope (rel : bool) (fuel : nat) (s : st) (f : uid) (name : N) : r
     | Some ((fl, al), rest) =>
       bind (scope_flows (abort fuel) fl (modf s f (set_scopes rest))) (scope_actions rel f al)
     end
+  end.
+
+(* ------------------------------------------------------------------------------------ *)
+(* Starting and activating flows: the START_FLOW branch of
+   _process_internal_events_without_default_matchers as far as it concerns the hierarchy and
+   `activated`, and _start_flow (the link of the new instance to its parent).
+
+   A StartFlow event, abstracted: flow id, uid of the instance to create, sender
+   (source_flow_instance_uid) and the `activated` marker (0 = absent/falsy; `activate` sends
+   True = 1, a restart sends the count of the ending instance). *)
+Record sfev := mkSfev { sf_flow : N; sf_uid : uid; sf_src : option uid; sf_activated : Z }.
+
+(* _is_done_flow *)
+Definition done (x : fstatus) : bool :=
+  match x with FStopped | FFinished => true | _ => false end.
+
+(* a freshly created instance: WAITING, not linked yet *)
+Definition new_inst (fid : N) : inst := mkInst fid FWaiting None [] [] [] 0%Z false.
+
+(* state.flow_states.update({uid: flow_state}) *)
+Definition addf (s : st) (x : uid) (i : inst) : st :=
+  match getf s x with
+  | Some _ => setf s x i
+  | None => mkSt (flows s ++ [(x, i)]) (acts s) (out s)
+  end.
+
+Section Start.
+  (* `pm u` = the parameters of instance u are exactly those of the event
+     (the comparison loop of _get_reference_activated_flow_instance) *)
+  Variable pm : uid -> bool.
+
+  (* _get_reference_activated_flow_instance: first instance of the flow, in creation order, that
+     is a reference instance (activated, linked to a parent of ANOTHER flow) with these parameters *)
+  Fixpoint ref_lookup (s : st) (fid : N) (l : list (uid * inst)) : option uid :=
+    match l with
+    | [] => None
+    | (u, i) :: l' =>
+      if N.eqb (i_flow i) fid then
+        if (i_activated i =? 0)%Z
+           || match i_parent i with
+              | None => true
+              | Some p => match getf s p with
+                          | None => true
+                          | Some pi => N.eqb (i_flow i) (i_flow pi)
+                          end
+              end
+        then ref_lookup s fid l'
+        else if pm u then Some u else ref_lookup s fid l'
+      else ref_lookup s fid l'
+    end.
+
+  (* the done-source guards: the sender has ended and is of another flow (a queued start of a
+     sender that ended meanwhile), or it is the ended instance of the same flow, the event is a
+     restart/activation and the flow was deactivated meanwhile *)
+  Definition start_dropped (s : st) (e : sfev) : bool :=
+    match sf_src e with
+    | None => false
+    | Some p =>
+      match getf s p with
+      | None => false
+      | Some si =>
+        done (i_status si)
+        && (negb (N.eqb (i_flow si) (sf_flow e))
+            || (negb (sf_activated e =? 0)%Z && (i_activated si =? 0)%Z))
+      end
+    end.
+
+  (* START_FLOW branch.  Result: the new state and, when a new instance was created, the
+     effective sender (the event's source_flow_instance_uid is REWRITTEN to the reference instance
+     for a restart), which _start_flow will use. *)
+  Definition start_proc (s : st) (e : sfev) : res (st * option uid) :=
+    if N.eqb (sf_flow e) main_id then Ok (s, None)
+    else if start_dropped s e then Ok (s, None)
+    else
+      let started := if (sf_activated e =? 0)%Z then None else ref_lookup s (sf_flow e) (flows s) in
+      match sf_src e with
+      | None => Err EKeyFlow
+      | Some p =>
+        match getf s p with
+        | None => Err EKeyFlow
+        | Some si =>
+          let child := N.eqb (sf_flow e) (i_flow si) in
+          match started with
+          | Some r =>
+            if child then Ok (addf s (sf_uid e) (new_inst (sf_flow e)), Some r)
+            else
+              (* activate a flow that already has been activated: count + 1, the activator gets
+                 the reference instance as one more child entry, FlowStarted is sent *)
+              let s1 := modf s r (fun i => set_activated (i_activated i + 1)%Z i) in
+              let s2 := modf s1 p (fun i => set_children (i_children i ++ [r]) i) in
+              Ok (emit1 s2 (EStarted r), None)
+          | None => Ok (addf s (sf_uid e) (new_inst (sf_flow e)), Some p)
+          end
+        end
+      end.
+End Start.
+
+(* _start_flow(state, flow_state, event_arguments) for a flow other than main: link to the parent,
+   take over the `activated` marker of the event *)
+Definition start_link (s : st) (x src : uid) (a : Z) : res st :=
+  match getf s x with
+  | None => Err EKeyFlow
+  | Some xi =>
+    if N.eqb (i_flow xi) main_id then Ok s
+    else
+      match getf s src with
+      | None => Err EKeyFlow
+      | Some _ =>
+        let s1 := modf s x (set_parent (Some src)) in
+        let s2 := modf s1 src (fun i => set_children (i_children i ++ [x]) i) in
+        Ok (modf s2 x (set_activated a))
+      end
+  end.
+
+(* processing of a StartFlow event: the branch above, then the new instance (waiting at its first
+   element) matches the event and _start_flow links it *)
+Definition start_flow (pm : uid -> bool) (s : st) (e : sfev) : res st :=
+  bind (start_proc pm s e) (fun r =>
+    match snd r with
+    | None => Ok (fst r)
+    | Some src => start_link (fst r) (sf_uid e) src (sf_activated e)
+    end).
+
+(* a listening instance moves on (WAITING -> STARTING -> STARTED) *)
+Definition advance (s : st) (f : uid) (v : fstatus) : st :=
+  match getf s f with
+  | Some i => if listening (i_status i) && listening v then setf s f (set_status v i) else s
+  | None => s
   end.
 
 (* _update_action_status_by_event + Action.process_event.  The harness classifies the event
